@@ -23,7 +23,7 @@ ANCHORS = ["pyflyby._autoimp:symbol_needs_import", "pyflyby._autoimp:find_missin
 
 ROOTS = ["ta", "tb", "tc"]
 PARTS = ["ua", "ub", "uc"]
-KINDS = ["trip", "trip", "modsub", "miss", "prop", "mod", "plain"]
+KINDS = ["trip", "trip", "modsub", "miss", "prop", "mod", "plain", "pep562", "modprop"]
 
 
 # ---------------------------------------------------------------------------------------------
@@ -45,7 +45,7 @@ def gen_case(seed, i):
         depth = r.choice([1, 2, 3, 4, 6, 8] if boundary else [1, 2, 2, 3, 4])
         path = [root] + [r.choice(PARTS) for _ in range(depth - 1)]
         chains.append(".".join(path))
-        cur = new(r.choice(["trip", "modsub", "mod", "miss", "prop"]))
+        cur = new(r.choice(["trip", "modsub", "mod", "miss", "prop", "pep562", "modprop"]))
         lvl = r.randrange(len(nss))
         nss[lvl][root] = cur
         if r.random() < .25 and len(nss) > 1:                   # the same or another object further out
@@ -62,7 +62,7 @@ def gen_case(seed, i):
                 break
             q = r.random()
             if q < .8:
-                nxt = new(r.choice(["trip", "modsub", "mod", "miss", "prop", "plain"]))
+                nxt = new(r.choice(["trip", "modsub", "mod", "miss", "prop", "plain", "pep562", "modprop"]))
                 objs[cur]["attrs"][path[k]] = nxt
                 cur = nxt
             else:
@@ -233,6 +233,31 @@ def build(case, log):
             o = mk_prop_class(n, boxes[n])()
         elif k == "mod":
             o = types.ModuleType("plainmod%d" % n)
+        elif k == "pep562":
+            # a plain module whose attributes are all served by a module-level __getattr__ (PEP 562)
+            o = types.ModuleType("pep562mod%d" % n)
+            boxes[n] = {}
+
+            def mk(n=n):
+                def __getattr__(name):
+                    rec("get", n, name)
+                    if name in boxes[n]:
+                        return boxes[n][name]
+                    raise AttributeError(name)
+                return __getattr__
+            o.__dict__["__getattr__"] = mk()
+        elif k == "modprop":
+            # a module subclass whose attributes are properties of the TYPE (nothing in the instance __dict__)
+            boxes[n] = {}
+
+            def mkprop(name, n=n):
+                def fget(self):
+                    rec("get", n, name)
+                    if name in boxes[n]:
+                        return boxes[n][name]
+                    raise AttributeError(name)
+                return property(fget)
+            o = type("ModProp%d" % n, (types.ModuleType,), {nm_: mkprop(nm_) for nm_ in PARTS + ROOTS})("modprop%d" % n)
         else:
             o = "plain-%d" % n
         objs[n] = o
@@ -244,7 +269,7 @@ def build(case, log):
                 object.__getattribute__(objs[n], "_a")[a] = objs[t]
             elif k == "miss":
                 objs[n].__dict__[a] = objs[t]
-            elif k == "prop":
+            elif k in ("prop", "pep562", "modprop"):
                 boxes[n][a] = objs[t]
             elif k == "mod":
                 objs[n].__dict__[a] = objs[t]
@@ -256,8 +281,10 @@ def recordable(kind, has_attr, name=None):
     """does the real object log getattr(o, a)?"""
     if kind in ("trip", "modsub"):
         return True
-    if kind == "prop":
+    if kind in ("prop", "modprop"):
         return name in PARTS + ROOTS
+    if kind == "pep562":
+        return not (name or "").startswith("__")
     if kind == "miss":
         return not has_attr
     return False
